@@ -1320,7 +1320,7 @@ def f(n: fp.Real, x: fp.Real) -> fp.Real:
             i = i + 0.5
         r = a + x
     return r
-''', 'f', ['real', 'real'], ['analysis', 'loop', 'no_ref'])
+''', 'f', ['real', 'real'], ['analysis', 'loop', 'no_ref', 'no_special'])
 
 prog('fmt_and_refinement_else', '''
 @fp.fpy
